@@ -49,6 +49,10 @@ class FailPlan:
     def check(self, code):
         if code in self.fail_items:
             raise ValueError(f"planned failure at item {code}")
+        if code in getattr(self, "kill_items", ()):
+            import os
+            import signal
+            os.kill(os.getpid(), signal.SIGKILL)  # real-process slice only: the worker kills itself mid-fetch
 
 
 class MapDS(tud.Dataset):
@@ -352,6 +356,13 @@ def is_iter(cfg):
 
 
 def make_dataset(cfg):
+    ds = _make_dataset(cfg)
+    if cfg.get("kill_items"):
+        ds.fail.kill_items = set(cfg["kill_items"])
+    return ds
+
+
+def _make_dataset(cfg):
     fail = cfg.get("fail", ())
     k = cfg["kind"]
     if k == "map":
